@@ -2,6 +2,26 @@
 use drv::*;
 use substrate_fixed::traits::LossyFrom;
 
+/// the same conversions through the az cast traits (feature "az", src/cast.rs)
+fn az_ev<F: Ext>(ev: &mut Ev, lay: Lay, w: u32, a: u128, fbits: u64)
+where
+    F::Bits: BitsIo,
+{
+    let x: F = fb(a);
+    ev.begin("zl", lay);
+    ev.arg_s(if w == 32 { "32" } else { "64" });
+    ev.arg(a);
+    ev.arg(fbits as u128);
+    ev.sep();
+    for form in 0..6u8 {
+        rec_az(ev, form, &mut || F::az_from_float(form, w, fbits));
+    }
+    for form in 0..6u8 {
+        rec_az(ev, form, &mut || x.az_to_float(form, w));
+    }
+    ev.end();
+}
+
 fn f32_ev<F: Ext>(ev: &mut Ev, lay: Lay, a: u128, fbits: u64)
 where
     F::Bits: BitsIo,
@@ -31,6 +51,7 @@ where
     rec_ord(ev, &mut || ord7(&x, &f));
     rec_ord(ev, &mut || x.x_rev_cmp_f32(f));
     ev.end();
+    az_ev::<F>(ev, lay, 32, a, fbits);
 }
 
 fn f64_ev<F: Ext>(ev: &mut Ev, lay: Lay, a: u128, fbits: u64)
@@ -62,6 +83,7 @@ where
     rec_ord(ev, &mut || ord7(&x, &f));
     rec_ord(ev, &mut || x.x_rev_cmp_f64(f));
     ev.end();
+    az_ev::<F>(ev, lay, 64, a, fbits);
 }
 
 fn drive<F: Ext>(ev: &mut Ev, args: &Args, lay: Lay)
